@@ -215,7 +215,7 @@ def role(phys, root):
 
 
 def task(arg):
-    opname, k, ename, root, shim, baseline, callinfo = arg
+    opname, k, ename, root, shim, baseline, callinfo, expected_class = arg
     sh = vp.Shard()
     try:
         ok, detail, trace, snap = execute(root, opname, shim, "inject", k, ERRNOS[ename])
@@ -233,6 +233,10 @@ def task(arg):
         sh.inconclusive.append("%s: injection #%d (%s) never fired" % (opname, k, ename))
         return sh.dict()
     f = fired[0]
+    if f["class"] != expected_class:
+        # the k-th counted call of this run is not the k-th call of the fault-free pass: the enumeration of fault points would have holes
+        sh.inconclusive.append("%s: fault point #%d is a %s call, the fault-free pass had a %s call there (enumeration misaligned)" % (opname, k, f["class"], expected_class))
+        return sh.dict()
     what = "%s with %s injected into call #%d = %s on %r" % (opname, ename, k, f["call"], f["phys"].decode(errors="replace")[-70:])
     sh.count("injections_fired")
     if ok:
@@ -364,7 +368,7 @@ def run(tier, seed, work):
             for j, e in enumerate(errnos):
                 if tier == "quick" and len(errnos) == 1 and False:
                     continue
-                tasks.append((opname, k, e, os.path.join(work, "t-%d-%d-%s" % (i, k, e)), shim, base, role(t["phys"], os.path.join(root, "w"))))
+                tasks.append((opname, k, e, os.path.join(work, "t-%d-%d-%s" % (i, k, e)), shim, base, role(t["phys"], os.path.join(root, "w")), t["class"]))
     for d in vp.pimap(task, tasks, chunksize=4):
         res.merge(d)
     nh = 400 if tier == "quick" else 30000
@@ -390,7 +394,8 @@ def replay(case, work):
         res.rule = "replay of one history fault (regenerated from VERIF_SEED and its index)"
         return res
     ok, detail, trace, base = execute(os.path.join(work, "count"), case["op"], shim, "count")
-    d = task((case["op"], case["k"], case["errno"], os.path.join(work, "t"), shim, base, "replay"))
+    calls = [t for t in trace if t["class"] in CLASSES.split(",")]
+    d = task((case["op"], case["k"], case["errno"], os.path.join(work, "t"), shim, base, "replay", calls[case["k"] - 1]["class"] if 0 < case["k"] <= len(calls) else "?"))
     res.merge(d)
     res.nontrivial.update({"replay-a", "replay-b"})
     res.rule = "replay of one injected fault"
